@@ -33,23 +33,63 @@ def debug_logging(on):
         root.setLevel(logging.WARNING)
 
 
-class Env:
-    """Environment of one judged history: a deterministic fraction (chosen from `key`, never from process-local
-    counters) runs with the library's debug logging switched on.  The specification does not know the environment:
-    a history recorded under debug logging is judged exactly like any other."""
+DST_TZ = 'CET-1CEST,M3.5.0,M10.5.0/3'      # a POSIX rule (no tz database needed): clocks skip 02:00-03:00 on the last Sunday of March
 
-    def __init__(self, *key, every=4):
+
+class Env:
+    """Environment of one judged history.  A deterministic fraction (chosen from `key` by a CRC, never from process-local
+    counters) runs in an environment other than the plain one:
+      debug   - the library's debug logging switched on (what the tools' --debug does)
+      warnerr - warnings turned into errors (python -W error / PYTHONWARNINGS=error / pytest filterwarnings=error)
+      decctx  - the application's decimal context has 6 digits of precision and traps Inexact
+      tz      - the process time zone has daylight saving (TZ set to a POSIX rule, time.tzset())
+    The specification does not know the environment: a history recorded under another environment is judged exactly
+    like any other."""
+    MODES = (('debug',), ('warnerr',), ('debug',), ('decctx',), ('warnerr', 'debug'), ('tz',), ('debug',), ('warnerr', 'decctx', 'tz'))
+
+    def __init__(self, *key, every=3, allow=('debug', 'warnerr', 'decctx', 'tz')):
         import zlib
-        self.on = every > 0 and zlib.crc32(repr(key).encode()) % every == 1
+        h = zlib.crc32(repr(key).encode())
+        self.modes = ()
+        if every > 0 and h % every == 1:
+            self.modes = tuple(m for m in self.MODES[(h // every) % len(self.MODES)] if m in allow)
+        self.on = 'debug' in self.modes
+        self._undo = []
 
     def __enter__(self):
-        if self.on:
-            debug_logging(True)
+        import decimal
+        import time
+        for m in self.modes:
+            if m == 'debug':
+                debug_logging(True)
+                self._undo.append(lambda: debug_logging(False))
+            elif m == 'warnerr':
+                cw = warnings.catch_warnings()
+                cw.__enter__()
+                warnings.simplefilter('error')
+                self._undo.append(lambda cw=cw: cw.__exit__(None, None, None))
+            elif m == 'decctx':
+                old = decimal.getcontext()
+                decimal.setcontext(decimal.Context(prec=6, traps=[decimal.InvalidOperation, decimal.DivisionByZero,
+                                                                  decimal.Overflow, decimal.Inexact]))
+                self._undo.append(lambda old=old: decimal.setcontext(old))
+            elif m == 'tz':
+                old = os.environ.get('TZ')
+
+                def undo(old=old):
+                    if old is None:
+                        os.environ.pop('TZ', None)
+                    else:
+                        os.environ['TZ'] = old
+                    time.tzset()
+                os.environ['TZ'] = DST_TZ
+                time.tzset()
+                self._undo.append(undo)
         return self
 
     def __exit__(self, *a):
-        if self.on:
-            debug_logging(False)
+        while self._undo:
+            self._undo.pop()()
         return False
 
 
@@ -167,7 +207,10 @@ def run_oneshot_block(data):
 def run_unblocker(blocked, sizes):
     """sizes: list of ints; 0 means read() with no argument. Returns list of returned byte strings."""
     with Env('unblk', len(blocked), sizes[:12]):
-        u = mciipm.Unblock1014(io.BytesIO(blocked))
+        f = io.BytesIO(blocked)
+        u = mciipm.Unblock1014(f)
+        if (len(blocked) + len(sizes)) % 3 == 1:
+            f.seek(0)                # the caller positions the file after wrapping it: nothing has been read yet
         outs = []
         for n in sizes:
             outs.append(u.read() if n == 0 else u.read(n))
@@ -181,6 +224,16 @@ def run_oneshot_unblock(blocked):
     except BaseException as ex:  # noqa
         return exc_outcome(ex), b''
     return {'kind': 'ok'}, out.getvalue()
+
+
+def slurp(path, mode='rb', **kw):
+    with open(path, mode, **kw) as fh:
+        return fh.read()
+
+
+def spit(path, data, mode='wb', **kw):
+    with open(path, mode, **kw) as fh:
+        fh.write(data)
 
 
 def rng(seed, *salt):
@@ -236,10 +289,17 @@ def _vbs_write_events(recs, blocked, fins, api, fileobj, peek):
         # the convenience method and the plain method mixed on one writer
         w = mciipm.VbsWriter(f, blocked=blocked)
         k = len(recs) // 2
-        w.write_many(recs[:k])
+
+        def reused(rs):
+            buf = bytearray()            # every record is handed over in the same buffer, refilled for the next one
+            for x in rs:
+                buf[:] = x
+                yield buf
+            buf[:] = b'\xee' * len(buf)
+        w.write_many(recs[:k] if len(recs) % 2 else reused(recs[:k]))
         for r in recs[k:k + 1]:
             w.write(r)
-        w.write_many(iter(recs[k + 1:]))
+        w.write_many(iter(recs[k + 1:]) if len(recs) % 3 else reused(recs[k + 1:]))
         w.close()
         events.append(ev('fin', 1))
         f.seek(0)
@@ -250,12 +310,17 @@ def _vbs_write_events(recs, blocked, fins, api, fileobj, peek):
         # second realisation of the same history: the records are written outside any with-block, every
         # context-manager exit is a real `with writer: pass` (entered after whatever happened before)
         w = mciipm.VbsWriter(f, blocked)            # the flag passed by position
+        captured = w.close                          # a bound method taken before anything was finalised (atexit / ExitStack style)
         for r in recs:
             w.write(r)
-        for x in fins:
+        for i, x in enumerate(fins):
             if x == 'exit':
                 with w:
                     pass
+            elif i % 3 == 1:
+                captured()
+            elif i % 3 == 2:
+                type(w).close(w)
             else:
                 w.close()
             if peek and f.readable():
@@ -267,7 +332,8 @@ def _vbs_write_events(recs, blocked, fins, api, fileobj, peek):
             data = f.read()
         else:
             f.flush()
-            data = open(f.name, 'rb').read()
+            with open(f.name, 'rb') as fh:
+                data = fh.read()
         events.append(ev('file', 0, '', data))
         return events, data
     if 'exit' in fins:
@@ -288,8 +354,14 @@ def _vbs_write_events(recs, blocked, fins, api, fileobj, peek):
         after = fins[k + 1:]
     else:
         w = mciipm.VbsWriter(f, blocked=blocked)
+        scrub = (len(recs) + len(fins)) % 2 == 0
         for r in recs:
-            w.write(r)
+            if scrub:
+                buf = bytearray(r)          # a mutable record that the caller wipes as soon as write() has returned
+                w.write(buf)
+                buf[:] = b'\xee' * len(buf)
+            else:
+                w.write(r)
         after = fins
     for x in after:
         if x == 'exit':
@@ -311,6 +383,7 @@ def read_events(data, blocked, make_reader=None, limit=100000, project=None, fil
 
 
 def _read_events(data, blocked, make_reader, limit, project, fileobj):
+    import zlib
     f = fileobj if fileobj is not None else io.BytesIO(data)
     events = []
     try:
@@ -321,20 +394,68 @@ def _read_events(data, blocked, make_reader, limit, project, fileobj):
         events.append(_err_event(o))
         return events, [o]
     raw = []
-    for _ in range(limit):
+    # how the reader is consumed: 0 next() calls; 1 next() for the first record, then a for loop; 2 a for loop left
+    # with break after the first record and continued by a second for loop; 3 one for loop
+    style = zlib.crc32(repr(('style', len(data), blocked, data[:5])).encode()) % 5 if project is None and make_reader is None else 0
+    state = {'n': 0}
+
+    def one_next():
         try:
             with Watchdog(5.0):
                 rec = next(rd)
         except StopIteration:
             events.append(ev('next', 0, 'stop'))
-            break
+            return False
         except BaseException as ex:  # noqa
             o = exc_outcome(ex)
             raw.append(o)
             events.append(_err_event(o))
-            break
+            return False
         raw.append(rec)
         events.append(ev('next', 0, 'rec', rec) if project is None else project(rec))
+        state['n'] += 1
+        return True
+
+    def loop(stop_after=None):
+        k = 0
+        try:
+            with Watchdog(20.0):
+                for rec in rd:
+                    raw.append(rec)
+                    events.append(ev('next', 0, 'rec', rec))
+                    state['n'] += 1
+                    k += 1
+                    if state['n'] >= limit or (stop_after and k >= stop_after):
+                        return True
+        except BaseException as ex:  # noqa
+            o = exc_outcome(ex)
+            raw.append(o)
+            events.append(_err_event(o))
+            return False
+        events.append(ev('next', 0, 'stop'))
+        return False
+
+    def consume():
+        if style in (0, 4):
+            while state['n'] < limit and one_next():
+                pass
+        elif style == 1:
+            if one_next():
+                loop()
+        elif style == 2:
+            if loop(stop_after=1):
+                loop()
+        else:
+            loop()
+    consume()
+    if style == 4 and not blocked and fileobj is None and state['n'] < limit:
+        # the same reader, rewound with its seek() (forwarded to the file), is read a second time
+        try:
+            rd.seek(0)
+        except BaseException as ex:  # noqa
+            return events, raw
+        events.append(ev('rewind'))
+        consume()
     return events, raw
 
 
